@@ -822,3 +822,50 @@ Lemma opener_dotfile_refuted :
 Proof.
   exists k_MGHImage, MGZ. repeat split; try (vm_compute; reflexivity). vm_compute. tauto.
 Qed.
+
+(* ------------------------------------------------------------------ save(): the conversion ladder sees the extension through lower() only *)
+Definition save_suffix_ok (sufs : list str) (e' s' : str) : Prop :=
+  (s' = [] /\ existsb (ieq e') sufs = false) \/ (exists s, In s sufs /\ lower s' = lower s).
+
+Lemma save_splitext sufs root e' s' :
+  forallb dotted sufs = true -> dottedi e' = true -> save_suffix_ok sufs e' s' ->
+  splitext_addext false sufs (root ++ e' ++ s') = (root, e', s').
+Proof.
+  intros Hs He Hok.
+  assert (Hsi : forallb dottedi sufs = true) by (eapply forallb_weaken; [apply dotted_dottedi|assumption]).
+  destruct Hok as [[-> Hex]|(s & Hin & Hl)].
+  - pose proof (splitext_addext_written sufs root e' None) as H. cbn [opt_str] in H. rewrite !app_nil_r in *.
+    apply H; [|assumption]. now rewrite (strip_suffix_dotted sufs root e' Hsi He), Hex.
+  - assert (Hds : dottedi s' = true).
+    { apply (dottedi_variant s s' Hl). apply dotted_dottedi. rewrite forallb_forall in Hs. auto. }
+    pose proof (splitext_addext_written sufs root e' (Some s')) as H. cbn [opt_str] in H.
+    apply H; [|assumption]. rewrite app_assoc, (strip_suffix_dotted sufs (root ++ e') s' Hsi Hds).
+    assert (Ex : existsb (ieq s') sufs = true).
+    { apply existsb_exists. exists s. split; [assumption|]. unfold ieq. rewrite Hl. apply str_eqb_refl. }
+    now rewrite Ex.
+Qed.
+
+Lemma save_case_independent ks sufs k root e1 e2 s1 s2 conv :
+  forallb dotted sufs = true -> dottedi e1 = true -> lower e2 = lower e1 ->
+  save_suffix_ok sufs e1 s1 -> save_suffix_ok sufs e2 s2 ->
+  is_ok (filespec_to_file_map k (root ++ e1 ++ s1)) = is_ok (filespec_to_file_map k (root ++ e2 ++ s2)) ->
+  save_class ks sufs k (root ++ e1 ++ s1) conv = save_class ks sufs k (root ++ e2 ++ s2) conv.
+Proof.
+  intros Hs He1 Hl Hok1 Hok2 Hacc. unfold save_class. rewrite Hacc.
+  destruct (is_ok (filespec_to_file_map k (root ++ e2 ++ s2))); [reflexivity|].
+  assert (He2 : dottedi e2 = true) by (apply (dottedi_variant e1 e2 Hl He1)).
+  rewrite (save_splitext sufs root e1 s1 Hs He1 Hok1), (save_splitext sufs root e2 s2 Hs He2 Hok2).
+  now rewrite Hl.
+Qed.
+
+(* the two-member NIfTI rungs, spelled out: whatever the case of the extension *)
+Lemma save_ladder_nifti ks k lext conv :
+  (str_eqb lext X_IMG || str_eqb lext X_HDR) = true ->
+  (kname k = N1I -> save_ladder ks k lext conv = find_class ks N1P)
+  /\ (kname k = N2I -> save_ladder ks k lext conv = find_class ks N2P).
+Proof.
+  intros Hp. unfold save_ladder. rewrite Hp. split; intros ->; cbn; reflexivity.
+Qed.
+
+Lemma save_suffixes_wf : forallb dotted save_suffixes = true.
+Proof. vm_compute; reflexivity. Qed.
